@@ -576,10 +576,51 @@ func c16Extra(c *Ctx, r *Report) {
 			"challenge, password and salt are joined without a length limit", "the payload is copied into a buffer of constant size at "+bad+": copy truncates silently, so for a long password (more than 56 bytes with an 8-digit challenge) the salt - or part of the password - is cut off before hashing and the response is wrong")
 	}
 
+	auxListRule(c, r, "C16-auxlist")
+
+	// ---- a challenge line is recognised before the prompt test (a challenge may end in '>')
+	r.Rule("C16-challenge", 1, "the ;PQ line is recognised whatever the challenge looks like")
+	if fn := c.Func(pkg, "(*Session).readHandshake"); fn == nil {
+		r.Fail("C16-challenge", "anchor readHandshake not found")
+	} else {
+		isCallOn := func(v ssa.Value, name, arg string) bool {
+			call, ok := v.(*ssa.Call)
+			if !ok || callName(&call.Call) != name {
+				return false
+			}
+			s, _ := constString(call.Call.Args[1])
+			return s == arg
+		}
+		n := 0
+		eachInstr(fn, func(b *ssa.BasicBlock, _ int, in ssa.Instruction) {
+			ifi, ok := in.(*ssa.If)
+			if !ok || !isCallOn(ifi.Cond, "strings.HasSuffix", ">") {
+				return
+			}
+			n++
+			notPQ := false
+			for _, cd := range condsAt(b) {
+				if isCallOn(cd.V, "strings.HasPrefix", ";PQ") && !cd.Truth {
+					notPQ = true
+				}
+			}
+			r.Check("C16-challenge", fnName(fn), "prompt test", c.pos(ifi.Cond.Pos()), notPQ,
+				"made only for lines that are not ;PQ lines", "the prompt test (line ends in '>') is made before the ;PQ test: a challenge ending in '>' is taken for the prompt, no challenge is recorded, no ;PR is sent - and a session without a login callback carries on instead of failing")
+		})
+		if n == 0 {
+			r.Add("C16-challenge", fnName(fn), "prompt test", c.pos(fn.Pos())).Bad("no test of the prompt suffix '>' found in readHandshake (unresolved)")
+		}
+	}
+}
+
+// auxListRule: the loop that writes the ;FW line is left only when the list of local addresses is
+// exhausted, and every iteration writes the address (or the address|response pair).
+func auxListRule(c *Ctx, r *Report, rule string) {
+	const pkg = "fbb"
 	// ---- every auxiliary address is announced, whatever happens to the others
-	r.Rule("C16-auxlist", 1, "the ;FW line lists every local address")
+	r.Rule(rule, 1, "the ;FW line lists every local address")
 	if fn := c.Func(pkg, "(*Session).sendHandshake"); fn == nil {
-		r.Fail("C16-auxlist", "anchor sendHandshake not found")
+		r.Fail(rule, "anchor sendHandshake not found")
 	} else {
 		found := false
 		for _, l := range naturalLoops(fn) {
@@ -601,7 +642,7 @@ func c16Extra(c *Ctx, r *Report) {
 				continue
 			}
 			found = true
-			o := r.Add("C16-auxlist", fnName(fn), "loop over localFW", c.pos(l.header.Instrs[0].Pos()))
+			o := r.Add(rule, fnName(fn), "loop over localFW", c.pos(l.header.Instrs[0].Pos()))
 			// (1) the loop is only left from its header
 			early := ""
 			for b := range l.body {
@@ -664,41 +705,8 @@ func c16Extra(c *Ctx, r *Report) {
 			}
 		}
 		if !found {
-			r.Add("C16-auxlist", fnName(fn), "loop over localFW", c.pos(fn.Pos())).Bad("no loop over s.localFW found in sendHandshake (unresolved)")
+			r.Add(rule, fnName(fn), "loop over localFW", c.pos(fn.Pos())).Bad("no loop over s.localFW found in sendHandshake (unresolved)")
 		}
 	}
 
-	// ---- a challenge line is recognised before the prompt test (a challenge may end in '>')
-	r.Rule("C16-challenge", 1, "the ;PQ line is recognised whatever the challenge looks like")
-	if fn := c.Func(pkg, "(*Session).readHandshake"); fn == nil {
-		r.Fail("C16-challenge", "anchor readHandshake not found")
-	} else {
-		isCallOn := func(v ssa.Value, name, arg string) bool {
-			call, ok := v.(*ssa.Call)
-			if !ok || callName(&call.Call) != name {
-				return false
-			}
-			s, _ := constString(call.Call.Args[1])
-			return s == arg
-		}
-		n := 0
-		eachInstr(fn, func(b *ssa.BasicBlock, _ int, in ssa.Instruction) {
-			ifi, ok := in.(*ssa.If)
-			if !ok || !isCallOn(ifi.Cond, "strings.HasSuffix", ">") {
-				return
-			}
-			n++
-			notPQ := false
-			for _, cd := range condsAt(b) {
-				if isCallOn(cd.V, "strings.HasPrefix", ";PQ") && !cd.Truth {
-					notPQ = true
-				}
-			}
-			r.Check("C16-challenge", fnName(fn), "prompt test", c.pos(ifi.Cond.Pos()), notPQ,
-				"made only for lines that are not ;PQ lines", "the prompt test (line ends in '>') is made before the ;PQ test: a challenge ending in '>' is taken for the prompt, no challenge is recorded, no ;PR is sent - and a session without a login callback carries on instead of failing")
-		})
-		if n == 0 {
-			r.Add("C16-challenge", fnName(fn), "prompt test", c.pos(fn.Pos())).Bad("no test of the prompt suffix '>' found in readHandshake (unresolved)")
-		}
-	}
 }
